@@ -109,7 +109,8 @@ func init() {
 		"(time.Time).Format": natConstStr("2006-01-02T15:04:05Z"), "(time.Time).String": natConstStr("time"), "(time.Time).UTC": natFirstArg,
 		"(time.Duration).Seconds": natZero, "(time.Duration).String": natConstStr("0s"), "(time.Time).Add": natFirstArg, "(time.Time).After": natZero, "(time.Time).Before": natZero,
 		"(time.Duration).Nanoseconds": natZero, "(time.Duration).Milliseconds": natZero,
-		"(*time.Ticker).Stop": natNoop, "(*time.Timer).Stop": natZero,
+		"(*time.Ticker).Stop": natNoop, "(*time.Timer).Stop": natZero, "(*time.Ticker).Reset": natNoop, "(*time.Timer).Reset": natZero,
+		"time.NewTicker": natNewTicker, "time.NewTimer": natNewTicker, "time.After": natTimeAfter, "time.Tick": natTimeAfter,
 		"reflect.DeepEqual": natDeepEqual,
 		"sort.Slice":        natSortSlice, "sort.SliceStable": natSortSlice, "sort.Strings": natSortStrings,
 		"regexp.MustCompile":                         natRegexpCompile,
@@ -549,6 +550,29 @@ func natSleep(p *Path, g *G, fr *Frame, fv *FuncV, args []Value) (Value, int) {
 		return nil, stBlock
 	}
 	return nil, stNext
+}
+
+// time.NewTicker / NewTimer: an object whose channel never fires (timers are
+// symbolic events a harness injects explicitly through redirects).
+func natNewTicker(p *Path, g *G, fr *Frame, fv *FuncV, args []Value) (Value, int) {
+	pt := fv.fn.Signature.Results().At(0).Type().(*types.Pointer)
+	st := pt.Elem().Underlying().(*types.Struct)
+	v := p.zero(pt.Elem()).(StructV)
+	for i := 0; i < st.NumFields(); i++ {
+		if st.Field(i).Name() == "C" {
+			p.nextObj++
+			ct := st.Field(i).Type().Underlying().(*types.Chan)
+			v.f[i] = &ChanObj{id: p.nextObj, cap: 1, etyp: ct.Elem()}
+		}
+	}
+	o := p.newObj(pt.Elem(), v, "ticker")
+	return &Ptr{obj: o}, stNext
+}
+
+func natTimeAfter(p *Path, g *G, fr *Frame, fv *FuncV, args []Value) (Value, int) {
+	ct := fv.fn.Signature.Results().At(0).Type().Underlying().(*types.Chan)
+	p.nextObj++
+	return &ChanObj{id: p.nextObj, cap: 1, etyp: ct.Elem()}, stNext
 }
 
 // ---------- reflect.DeepEqual ----------
